@@ -58,6 +58,16 @@ Qed.
 Lemma consts_no_star cs : existsb is_starred (map Const cs) = false.
 Proof. induction cs; simpl; auto. Qed.
 
+(* ... and no assignment expressions (F48) *)
+Lemma fragr_no_walrus :
+  (forall cl e, fragr cl e -> has_walrus e = false) /\
+  (forall cl l, fragrs cl l -> existsb has_walrus l = false).
+Proof.
+  apply fragr_mutind; intros; cbn [has_walrus existsb map];
+    repeat match goal with H : _ = false |- _ => rewrite H; clear H end; try reflexivity.
+  clear. induction cs; simpl; auto.
+Qed.
+
 (* inside [fragr false] nothing binds: the bail-out of FC4 cannot fire for such a body *)
 Lemma fragr_false_no_binders :
   (forall cl e, fragr cl e -> cl = false -> inner_binders e = []) /\
@@ -72,9 +82,9 @@ Proof.
   - (* IfExp *) rewrite H, H0, H1. reflexivity.
   - (* Subscript *) rewrite H, H0. reflexivity.
   - (* method call without arguments *) cbn [inner_binders]. rewrite H. reflexivity.
-  - (* called lambda *) rewrite H0. rewrite e, Nat.eqb_refl, (proj2 fragr_no_star _ _ f). exact H.
+  - (* called lambda *) rewrite H0. rewrite e, Nat.eqb_refl, (proj2 fragr_no_star _ _ f), (proj1 fragr_no_walrus _ _ f0). exact H.
   - (* called lambda, constant arguments *)
-    rewrite H. rewrite map_length, e, Nat.eqb_refl, consts_no_star. apply flat_binders_consts.
+    rewrite H. rewrite map_length, e, Nat.eqb_refl, consts_no_star, (proj1 fragr_no_walrus _ _ f). apply flat_binders_consts.
   - (* cons *) rewrite H, H0. reflexivity.
 Qed.
 
@@ -192,7 +202,7 @@ Section Sem.
       apply IHelt; [intros _; apply closed_shadow; auto | apply Rr_shadow1; auto].
     - (* an inlined call *)
       intros cl ps b args Hlen Hfa IHargs Hfb IHb st E1 E2 Hc HR. cbn [res eval].
-      rewrite Hlen, Nat.eqb_refl, (proj2 fragr_no_star _ _ Hfa).
+      rewrite Hlen, Nat.eqb_refl, (proj2 fragr_no_star _ _ Hfa), (proj1 fragr_no_walrus _ _ Hfb). cbn [orb].
       rewrite (proj1 fragr_false_no_binders false b Hfb eq_refl), overlaps_nil_r.
       intros w Hw. apply obind_some in Hw. destruct Hw as [vs [Hvs Hw]].
       apply obind_some in Hw. destruct Hw as [E' [HE' Hw]].
@@ -206,8 +216,8 @@ Section Sem.
       + contradiction.
       + rewrite Hfr. exact (HR x).
     - (* a call with constant arguments: the frame is closed, binders may stay in the body *)
-      intros cl ps b cs Hlen _ IHb st E1 E2 Hc HR. cbn [res eval].
-      rewrite map_length, Hlen, Nat.eqb_refl, consts_no_star.
+      intros cl ps b cs Hlen Hfb IHb st E1 E2 Hc HR. cbn [res eval].
+      rewrite map_length, Hlen, Nat.eqb_refl, consts_no_star, (proj1 fragr_no_walrus _ _ Hfb). cbn [orb].
       assert (Hres : map (res st) (map Const cs) = map Const cs).
       { clear. induction cs; simpl; [reflexivity|]. rewrite IHcs. reflexivity. }
       assert (Hnm : flat_map names_in (map Const cs) = []).
@@ -275,6 +285,12 @@ Combined Scheme fragc_mutind from fragc_mut, fragcs_mut.
 
 Lemma fragc_fragr : (forall e, fragc e -> fragr true e) /\ (forall l, fragcs l -> fragrs true l).
 Proof. apply fragc_mutind; intros; constructor; assumption. Qed.
+
+(* no assignment expressions in the fragment: a lambda binds its parameters only (F42) *)
+Lemma fragc_no_assigned b : fragc b -> assigned b = [].
+Proof.
+  intros H. apply no_walrus_no_assigned. exact (proj1 fragr_no_walrus true b (proj1 fragc_fragr b H)).
+Qed.
 
 (* a snapshot of plain literals only: no attribute table, every entry a value the semantics knows *)
 Definition lit_entry (p : string * capval) : Prop :=
@@ -408,9 +424,9 @@ Section Freeze.
       eexists. cbn [rw res rw_list map] in *. rewrite Hr.
       split; [reflexivity | split; [left; reflexivity | intros c0 Hc; discriminate]].
     - (* method call with a lambda *)
-      intros s m x b _ IHs _ IHb st. destruct (rw_ok_attr s m IHs st) as (r & Hr & Hinv & _).
+      intros s m x b _ IHs Hfb IHb st. destruct (rw_ok_attr s m IHs st) as (r & Hr & Hinv & _).
       destruct (IHb ([x] :: st)) as (rb & Hrb & _).
-      eexists. cbn [rw res rw_list map] in *. rewrite Hr, Hrb.
+      eexists. cbn [rw res rw_list map] in *. rewrite (fragc_no_assigned b Hfb). cbn [app]. rewrite Hr, Hrb.
       split; [reflexivity | split; [left; reflexivity | intros c0 Hc; discriminate]].
     - (* comprehension *)
       intros x it elt _ IHit _ IHelt st.
